@@ -69,6 +69,8 @@ def encErr : Err → Sx
   | .notImplemented => .atom "notimplemented"
   | .depthExceeded => .atom "depthexceeded"
   | .zeroColumnRows => .atom "zerocolumnrows"
+  | .badTemporal => .atom "badtemporal"
+  | .panic => .atom "PANIC"
 
 /-- the model's `parse_data_type` verdict on a catalog type text: `none`, a canonical type name,
     or `?` when the text is not ASCII (Rust upper-cases with Unicode rules) -/
